@@ -7,7 +7,7 @@ from rules import tasks as T
 
 UNITS = ["lib/Commands/NinjaBuildCommand.cpp", "lib/Core/BuildEngine.cpp", "lib/Basic/Subprocess.cpp",
          "lib/Basic/LaneBasedExecutionQueue.cpp", "lib/Basic/SerialQueue.cpp", "lib/Ninja/Parser.cpp", "lib/Ninja/Lexer.cpp",
-         "lib/Ninja/ManifestLoader.cpp", "lib/Core/SQLiteBuildDB.cpp"]
+         "lib/Ninja/ManifestLoader.cpp", "lib/Core/SQLiteBuildDB.cpp", "products/libllbuild/BuildDB-C-API.cpp"]
 THOROUGH_ALL_UNITS = False
 EXPLANATION = (
     "Every task type of the Ninja driver completes exactly once on every path, through the console-queue / lane-job / "
@@ -39,11 +39,13 @@ def run(ctx):
     E.r_discovered_demanded(prog, rep)
     # `llbuild ninja build` is the engine's incremental contract seen through one client: the rules that decide that contract for C01 / C02
     for rule_fn in (E.r_scan_guards, E.r_epoch_cmp, E.r_epoch_writes, E.r_epoch_persist, E.r_dep_record, E.r_discovered_append, E.r_invalid_window,
-                    E.r_state_order, E.r_parallel_vectors, E.r_request_flags, E.r_singleuse_bits, E.r_fresh_value):
+                    E.r_state_order, E.r_parallel_vectors, E.r_request_flags, E.r_singleuse_bits, E.r_fresh_value, E.r_value_compare):
         rule_fn(prog, rep)
     from rules import C17, C03
     C17.r_input_classes(prog, rep)
     C03.r_sql_columns(prog, rep)
+    from sa.report import run_subset
+    run_subset(C03, ctx, {"R-DEPBLOB-BITS", "R-DB-LOOKUP-ON-ADD"})
 
     r = rep.rule("R-NINJA-ORDERONLY", "explicit and implicit inputs are requested as value dependencies, order-only inputs are only followed; each loop runs "
                                       "over its own iterator range", floor=3)
